@@ -73,7 +73,7 @@ TESTED_NOT_PROVED = [
     "explicit_hydrogen=True exports of graphs with implicit hydrogens; core=False (full) exports on ITS graphs outside its_ok; h_to_explicit "
     "with its=True beyond the total count: correspondence + oracle only",
 ]
-LEVEL_TEXT = ("Machine-checked proof (Coq, 23 theorems, closed under the global context) over an executable model of the GML writer/reader at "
+LEVEL_TEXT = ("Machine-checked proof (Coq, 25 theorems, closed under the global context) over an executable model of the GML writer/reader at "
               "record level, of its_to_gml / gml_to_its / smart_to_gml / get_rc / its_decompose / ITSGraph at graph level, of h_to_explicit / "
               "h_to_implicit, and of the attribute copying of MolToGraph / GraphToMol: label round trip for every element symbol and every "
               "charge; ITS -> GML -> ITS restores atoms, both-side charges and (before, after) orders for every reaction-centre-shaped ITS, "
@@ -525,9 +525,10 @@ def impl(case):
         its = ITSConstruction().ITSGraph(to_nx(x[0]), to_nx(x[1]))
         out = []
         dom = [_py_mol_ok(x[0]), _py_mol_ok(x[1]), _py_balanced(x[0], x[1]), _py_eo_covers(x[0], x[1], x[2])]
+        sf = all(a.get("standard_order") is None for g in x[:2] for _, _, a in g["edges"])
         for core, reindex, eh in case["cfgs"]:
             text = smart_to_gml(case["rsmi"], core=core, reindex=reindex, explicit_hydrogen=eh)
-            out.append([[gr_obs(its), rec_obs(text_to_rec(text)), parsed_obs(text)]] + dom)
+            out.append([[[gr_obs(its), rec_obs(text_to_rec(text)), parsed_obs(text)]] + dom, sf])
         return out
     raise AssertionError(k)
 
@@ -574,7 +575,7 @@ def coq_case(case):
             eo = clist(["(%s, %s)" % (cN(u), cN(v)) for u, v in x[2]])
             return "(let r := %s in let p := %s in let eo := %s in %s)" % (
                 enc_gr(x[0]), enc_gr(x[1]), eo,
-                clistL(["run_smart2 r p eo %s %s %s" % (cbool(a), cbool(b), cbool(c)) for a, b, c in case["cfgs"]]))
+                clistL(["run_smart3 r p eo %s %s %s" % (cbool(a), cbool(b), cbool(c)) for a, b, c in case["cfgs"]]))
     except Outside:
         return None
     raise AssertionError(k)
@@ -1460,7 +1461,7 @@ def oracle(case):
 
 def _rec_of(k, o):
     """the GML record inside one per-configuration observable"""
-    return o[0][0][0][-2] if k == "its" else o[0][-2]
+    return o[0][0][0][-2] if k == "its" else o[0][0][-2]
 
 
 def nontrivial(case, obs):
@@ -1531,7 +1532,7 @@ def distribution(cases, obss):
                 for oo in o:
                     rec = _rec_of(k, oo)
                     if k == "smart":
-                        key = "smart_roundtrip_domain:" + str(bool(oo[1] and oo[2] and oo[3] and oo[4]))
+                        key = "smart_roundtrip_domain:" + str(bool(oo[0][1] and oo[0][2] and oo[0][3] and oo[0][4]))
                         d["cfg_counts"][key] = d["cfg_counts"].get(key, 0) + 1
                     if k == "its":
                         d["its_ok_exports"][str(bool(oo[0][0][1]))] = d["its_ok_exports"].get(str(bool(oo[0][0][1])), 0) + 1
